@@ -77,7 +77,8 @@ def run(ctx):
             if name != 'pixel' and abs(out.sum() - img.sum()) > 1e-10 * img.sum():
                 ctx.violation(dict(sig, kind='total-not-kept'), dict(detail, before=float(img.sum()), after=float(out.sum())), case=None)
             # 1a. frames of counts (integer / unsigned / boolean samples, nested lists): the blur is the same linear map
-            for frame in (np.round(img * 20).astype(np.int64), np.round(img * 20).astype(np.uint16), img > 2.5, np.round(img * 20).astype(int).tolist()):
+            for frame in (np.round(img * 20).astype(np.int64), np.round(img * 20).astype(np.uint16), img > 2.5, np.round(img * 20).astype(int).tolist(),
+                          np.round(img * 1000).astype(np.float16), np.round(img * 20).astype(np.float32)):
                 try:
                     o_t = np.asarray(call[name](frame), dtype=float)
                     o_f = call[name](np.asarray(frame, dtype=float))
@@ -88,6 +89,10 @@ def run(ctx):
                     ctx.violation(dict(sig, kind='depends-on-sample-type', frame_dtype=np.asarray(frame).dtype.kind),
                                   dict(detail, max_abs_difference=float(np.abs(o_t - o_f).max()) if o_t.shape == o_f.shape else None), case=None)
                     break
+            # 1a''. an empty (all-zero) frame - a dark exposure, a blank window - stays empty: finite, non-negative, total 0
+            oz = np.asarray(call[name](np.zeros((R, C))), dtype=float)
+            if oz.shape != (R, C) or not np.all(np.isfinite(oz)) or np.any(oz != 0):
+                ctx.violation(dict(sig, kind='all-zero-frame'), dict(detail, finite=bool(np.all(np.isfinite(oz)))), case=None)
             # 1a'. a blur is linear: faint frames (1e-15 of a count) and bright ones (1e12) are blurred like any other
             for kmag in (1e-15, 1e-12, 1e12):
                 o_k = call[name](img * kmag)
